@@ -133,6 +133,9 @@ func (m c03) Run(c *core.Ctx) {
 	// larger random trees
 	n := c.Pick(1500, 30000)
 	for i := 0; i < n; i++ {
+		if stopExploring(c) {
+			break
+		}
 		size := 5 + c.Rng.Intn(5)
 		tr := gen.RandomList(c.Rng, size, 3+c.Rng.Intn(2), false, 3)
 		var h []int
